@@ -173,4 +173,4 @@ CHECKS = {
 # properties not (yet) claimed: id -> reason (kept current; see DESIGN.md)
 NOT_APPLICABLE = {}  # every listed property is claimed; a property dropped from CHECKS must be given a reason here
 
-HOOK_COMMITS = ["750f6f3", "65ea752", "ed0735a", "ff174a5", "d8f7bf2", "82203ff", "b03adbd", "7e9a18f", "49628c7", "1549af9", "2337661"]
+HOOK_COMMITS = ["750f6f3", "65ea752", "ed0735a", "ff174a5", "d8f7bf2", "82203ff", "b03adbd", "7e9a18f", "49628c7", "1549af9", "2337661", "a83b00a"]
